@@ -739,7 +739,23 @@ pub fn op_obpre(args: &[&str]) -> String {
     let ext = blob(&format!("{}:{}:{}", args[0], args[1], m));
     let pre = &ext[..n];
     let mk = |d: &[u8]| -> Vec<u8> {
-        if args[5] == "sync" || args[5] == "growsync" {
+        if args[5] == "syncw" {
+            // the sequential writer into a plain `Write` (only `write` / `flush` implemented, as a user's progress
+            // or counting wrapper would be: std's default `write_vectored`, `write_all` etc. apply)
+            struct PlainWrite<'a>(&'a mut Vec<u8>);
+            impl std::io::Write for PlainWrite<'_> {
+                fn write(&mut self, buf: &[u8]) -> std::io::Result<usize> {
+                    self.0.extend_from_slice(buf);
+                    Ok(buf.len())
+                }
+                fn flush(&mut self) -> std::io::Result<()> {
+                    Ok(())
+                }
+            }
+            let mut w = Vec::new();
+            sync::outboard_post_order(d, BaoTree::new(d.len() as u64, bs), PlainWrite(&mut w)).unwrap();
+            w
+        } else if args[5] == "sync" || args[5] == "growsync" {
             PostOrderMemOutboard::create(d, bs).data
         } else {
             let mut w = Vec::new();
